@@ -30,6 +30,9 @@ SCRIPTS = {
     'e': dict(events=[['get_registry'], ['bind', 5, 'zz_f'], ['cev', S, 'zz_a'], ['cev', S, 'wl_callback'], ['ment', S]], role='client'),
     'q': dict(events=[['get_registry'], ['quote', '12'], ['creq', 3, 'wl_callback'], ['quote', '1'], ['del', 3]], role='client'),
     'o': dict(events=[['get_registry'], ['orphan'], ['creq', 3, 'wl_callback'], ['orphan'], ['use', 3]], role='client'),
+    # a log that begins in the middle of a session: the first line of the tag is a message the tool cannot take in
+    'r': dict(events=[['reject'], ['creq', 3, 'wl_callback'], ['use', 3], ['reject'], ['del', 3]], role='unknown'),
+    'r2': dict(events=[['reject'], ['get_registry']], role='unknown'),
     'b3': dict(events=[['get_registry'], ['creq', 3, 'wl_callback'], ['del', 3]], role='client'),
     'd3': dict(events=[['creq', 3, 'wl_callback'], ['del', 3], ['creq', 3, 'wl_callback']], role='unknown'),
     'f3': dict(events=[['get_registry'], ['bind', 3, 'zz_b'], ['use', 3]], role='server', server_side=True),
@@ -39,7 +42,8 @@ SCRIPTS = {
                role='server', server_side=True),
 }
 
-TUPLES_QUICK = [('a', 'b'), ('a', 'c'), ('b', 'd'), ('e', 'a'), ('b3', 'd3', 'f3'), ('b3', 'b3', 'b3'), ('q', 'b'), ('o', 'b3')]
+TUPLES_QUICK = [('a', 'b'), ('a', 'c'), ('b', 'd'), ('e', 'a'), ('b3', 'd3', 'f3'), ('b3', 'b3', 'b3'), ('q', 'b'), ('o', 'b3'),
+                ('r', 'b3'), ('r2', 'b3', 'r2')]
 TUPLES_THOROUGH = TUPLES_QUICK + [('c', 'd'), ('e', 'c'), ('b', 'b'), ('d', 'd'), ('a4', 'c4', 'g2'), ('c4', 'a4', 'b3'),
                                   ('a', 'b', 'd3'), ('c', 'e', 'b3'), ('d', 'b', 'g2'), ('a4', 'c4', 'a4'),
                                   ('b3', 'd3', 'f3', 'g2')]
@@ -116,8 +120,13 @@ def eval_ilv(case):
             announced.add(ci)
             if got_notice != want_notice:
                 V.append(Violation('notice.new', case, dict(step, expected=want_notice, observed=got_notice)))
-            if (err or logs) and not exp.get('orphan'):
+            if (err or logs) and not exp.get('orphan') and not exp.get('rejected'):
                 V.append(Violation('log.noise', case, dict(step, err=err, log=logs)))
+            if exp.get('rejected'):
+                items = [l for l in out if outparse.classify(l)[0] not in ('notice', 'separator')]
+                if recs or len(items) != 1:
+                    V.append(Violation('line.rejected_item', case, dict(step, observed=out)))
+                continue
             if len(recs) != 1:
                 V.append(Violation('line.count', case, dict(step, observed=out)))
                 continue
@@ -131,7 +140,8 @@ def eval_ilv(case):
         # the connection listing, while open and after the end of input
         for tag, listing, state in (('open', listing_open, 'open'), ('closed', listing_closed, 'closed')):
             want = [{'name': names[ci], 'role': roles[ci], 'closed': state == 'closed', 'selected': False,
-                     'messages': len(SCRIPTS[case['scripts'][ci]]['events']), 'state': state} for ci in first_seen]
+                     'messages': len([e for e in SCRIPTS[case['scripts'][ci]]['events'] if e[0] != 'reject']), 'state': state}
+                    for ci in first_seen]
             got = [outparse.connection_line(l) for l in listing]
             if got != want:
                 V.append(Violation('listing.' + tag, case, {'expected': want, 'observed': got}))
